@@ -234,7 +234,12 @@ func GetWeek(year int, month int, day int) int {
 }
 
 func GetWeeksOfMonth(year int, month int, start int) int {
-	return int(math.Ceil(float64(GetDaysOfMonth(year, month)+GetWeek(year, month, 1)-start) / 7))
+	// days of the first week that fall before the 1st of the month
+	offset := GetWeek(year, month, 1) - start
+	if offset < 0 {
+		offset += 7
+	}
+	return int(math.Ceil(float64(GetDaysOfMonth(year, month)+offset) / 7))
 }
 
 func IsBefore(ay int, am int, ad int, ah int, ai int, as int, by int, bm int, bd int, bh int, bi int, bs int) bool {
